@@ -741,3 +741,188 @@ pub fn g_blocked(rng: &mut Rng) -> Pos {
         }
     }
 }
+
+
+// ------------------------------------------------------------------------------------------------
+// Slider-table sweep: one position per (square, rook|bishop, occupancy of the relevant ray squares).
+// A magic-bitboard engine answers every slider question from a table indexed by exactly that
+// triple; random play reaches a small part of the ~108 000 entries, this generator reaches all of
+// them inside valid positions (the C01 quantifier is over all valid positions).
+
+/// the squares of each ray from `s` (rook or bishop directions), nearest first
+fn rays_from(s: u8, rook: bool) -> Vec<Vec<u8>> {
+    let dirs: [(i8, i8); 4] = if rook { [(1, 0), (0, 1), (-1, 0), (0, -1)] } else { [(1, 1), (-1, 1), (-1, -1), (1, -1)] };
+    let mut out = vec![];
+    for (df, dr) in dirs {
+        let mut v = vec![];
+        let (mut f, mut r) = (file_of(s) + df, rank_of(s) + dr);
+        while on_board(f, r) {
+            v.push(sq(f, r));
+            f += df;
+            r += dr;
+        }
+        out.push(v);
+    }
+    out
+}
+
+/// (relevant squares: every ray square but the last of its ray; the last squares)
+pub fn slider_relevant(s: u8, rook: bool) -> (Vec<u8>, Vec<u8>) {
+    let mut rel = vec![];
+    let mut edge = vec![];
+    for ray in rays_from(s, rook) {
+        for (i, x) in ray.iter().enumerate() {
+            if i + 1 == ray.len() {
+                edge.push(*x);
+            } else {
+                rel.push(*x);
+            }
+        }
+    }
+    (rel, edge)
+}
+
+/// number of table entries of the sweep (sum over squares and both slider kinds of 2^relevant)
+pub fn slider_entry_count() -> u64 {
+    let mut n = 0u64;
+    for s in 0..64u8 {
+        for rook in [true, false] {
+            n += 1u64 << slider_relevant(s, rook).0.len();
+        }
+    }
+    n
+}
+
+/// the i-th entry: (square, rook?, subset of the relevant squares)
+pub fn slider_entry(mut i: u64) -> (u8, bool, u32) {
+    for s in 0..64u8 {
+        for rook in [true, false] {
+            let n = 1u64 << slider_relevant(s, rook).0.len();
+            if i < n {
+                return (s, rook, i as u32);
+            }
+            i -= n;
+        }
+    }
+    (0, true, 0)
+}
+
+/// A valid position in which a rook, bishop or queen stands on `s` and the relevant squares of its rays are
+/// occupied exactly as `subset` says (random pieces of both colours as blockers, the last square of each ray
+/// and the rest of the board random). None when no valid arrangement was found in a few attempts.
+pub fn g_slider_entry(s: u8, rook: bool, subset: u32, exposing: bool, rng: &mut Rng) -> Option<Pos> {
+    let (rel, edge) = slider_relevant(s, rook);
+    for attempt in 0..12 {
+        let mut p = Pos::empty();
+        p.stm = rng.below(2) as u8;
+        // exposing arrangement: the slider (a plain rook or bishop, so only this geometry's entry is read)
+        // belongs to the side to move, every piece on its rays is an enemy piece other than the king, the
+        // mover is not in check: every square of the entry — right or wrong — is then a move or a capture,
+        // so any difference between the entry and the true attack set shows in the move list.
+        // otherwise: two thirds the slider belongs to the side to move; else to the opponent (attack
+        // detection, pins, king danger squares read the entry), blockers of both colours, kings among them
+        let owner = if exposing || rng.chance(2, 3) { p.stm } else { p.stm ^ 1 };
+        let k = if !exposing && rng.chance(1, 3) { Q } else if rook { R } else { B };
+        p.sq[s as usize] = pc(owner, k);
+        let mut kings_left = vec![WHITE, BLACK];
+        let mut put = |p: &mut Pos, x: u8, rng: &mut Rng| {
+            let col = if exposing { owner ^ 1 } else { rng.below(2) as u8 };
+            // now and then a king is the blocker
+            if !exposing && !kings_left.is_empty() && rng.chance(1, 12) {
+                let kc = kings_left.remove(rng.below(kings_left.len() as u64) as usize);
+                p.sq[x as usize] = pc(kc, K);
+                return;
+            }
+            let mut kd = *rng.pick(&[P, P, P, N, N, B, R, Q]);
+            if kd == P && (rank_of(x) == 0 || rank_of(x) == 7) {
+                kd = N;
+            }
+            p.sq[x as usize] = pc(col, kd);
+        };
+        for (i, x) in rel.iter().enumerate() {
+            if subset >> i & 1 == 1 {
+                put(&mut p, *x, rng);
+            }
+        }
+        for x in edge.iter() {
+            if rng.chance(1, 2) {
+                put(&mut p, *x, rng);
+            }
+        }
+        // a few pieces elsewhere (never on the rays: the entry under test must stay the one asked for)
+        let on_rays: Vec<u8> = rel.iter().chain(edge.iter()).copied().collect();
+        let free: Vec<u8> = (0..64u8).filter(|x| *x != s && !on_rays.contains(x)).collect();
+        for _ in 0..rng.below(5) {
+            let x = *rng.pick(&free);
+            if p.sq[x as usize] == 0 {
+                let col = rng.below(2) as u8;
+                let mut kd = *rng.pick(&[P, P, N, B, R, Q]);
+                if kd == P && (rank_of(x) == 0 || rank_of(x) == 7) {
+                    kd = N;
+                }
+                p.sq[x as usize] = pc(col, kd);
+            }
+        }
+        // the kings not used as blockers: off the rays, the king of the side NOT to move on a square
+        // where it is not in check (a few attempts)
+        let mut ok = true;
+        for kc in kings_left.clone() {
+            let mut placed = false;
+            for _ in 0..24 {
+                let x = *rng.pick(&free);
+                if p.sq[x as usize] != 0 {
+                    continue;
+                }
+                p.sq[x as usize] = pc(kc, K);
+                if kc != p.stm && p.validity().is_err() && kings_left.len() == 1 {
+                    p.sq[x as usize] = 0;
+                    continue;
+                }
+                placed = true;
+                break;
+            }
+            if !placed {
+                ok = false;
+                break;
+            }
+            kings_left.retain(|c| *c != kc);
+        }
+        if !ok {
+            continue;
+        }
+        decorate(&mut p, rng);
+        if p.validity().is_ok() {
+            // the exposing arrangement wants a mover who is neither in check nor has the slider pinned:
+            // retry a few times, then take what there is
+            if exposing && attempt < 8 {
+                let expected = slider_reach(&p, s, rook);
+                let got = p.legal_moves().iter().filter(|m| m.from == s).count();
+                if p.in_check() || got != expected {
+                    continue;
+                }
+            }
+            return Some(p);
+        }
+    }
+    None
+}
+
+/// number of squares a rook/bishop on `s` reaches in `p` (empty squares and the first enemy piece of each ray)
+fn slider_reach(p: &Pos, s: u8, rook: bool) -> usize {
+    let me = color(p.sq[s as usize]);
+    let mut n = 0;
+    for ray in rays_from(s, rook) {
+        for x in ray {
+            let q = p.sq[x as usize];
+            if q == 0 {
+                n += 1;
+            } else {
+                if color(q) != me {
+                    n += 1;
+                }
+                break;
+            }
+        }
+    }
+    n
+}
